@@ -32,9 +32,9 @@ LEVEL_TEXT = ("small-scope exhaustive: every table of the stated shapes over the
               "{find_min for (10,20) / (10); int order 0, 1 and order lists [0,1], [1,0] for (10,20)} x 4 routes (SSI_mpe and "
               "SSIcov.mpe with covariance tables, pLSCF_mpe, pLSCF.mpe), on objects that are kept between the extractions. Axis ordmin (class routes): every table of every "
               "space x every ordmin in 1..last column x class route (SSIcov.mpe, with / without covariance tables rotating with "
-              "table index + ordmin; pLSCF.mpe except for find_min tables) x every request and order of the space's grid, tolerance "
-              "rotating with (table index + ordmin) >> 1; chained space: every chain on an object with ordmin 1, route rotating "
-              "with the table index")
+              "table index + ordmin; pLSCF.mpe except for find_min tables; per-mode order lists: one of the three per table, "
+              "rotating) x every request and order of the space's grid, tolerance rotating with the next bit of table index + "
+              "ordmin; chained space: every chain on an object with ordmin 1, route rotating with the table index")
 RULE = ("a case is one pole table, executed over its whole grid of (requested frequencies, order, rtol, route, covariance); "
         "non-trivial = explicit order: for some request a column that is read holds two or more retained poles and the "
         "nearest one is outside the tolerance, or is not the first retained row, or has an equidistant twin; find_min: the "
@@ -66,8 +66,10 @@ ASSUMPTIONS = [
     "values 1 .. last column (ordmin <= ordmax); SSIcov objects with ordmin > 0 are created with ordmax = last column",
     "axis ordmin is crossed with every table, every request and every order of each space on the class routes; the tolerance and "
     "with / without covariance tables rotate with the table index and ordmin (all four combinations over four consecutive tables); "
-    "pLSCF.mpe(order='find_min') is not repeated with ordmin > 0 (known-finding route, its mpe does not read ordmin); in the chained "
-    "space the route (SSIcov.mpe with covariances / pLSCF.mpe) rotates with the table index",
+    "pLSCF.mpe(order='find_min') is not repeated with ordmin > 0 (known-finding route, its mpe does not read ordmin); in the "
+    "per-mode-list space EL one class route per (table, ordmin) (SSIcov.mpe with / without covariances, pLSCF.mpe on every other "
+    "table; every route x tolerance within 8 consecutive tables); in the chained space the route (SSIcov.mpe with covariances / "
+    "pLSCF.mpe) rotates with the table index",
 ]
 
 NCH = 3
@@ -288,26 +290,30 @@ def ordmins(sp):
 
 
 def ordmin_routes(sp, idx):
-    """Class routes with a non-default ordmin executed on table idx (in addition to routes_for): every ordmin x
-    SSIcov.mpe (with covariance tables iff idx + ordmin is even) and pLSCF.mpe (not for find_min tables: known-finding route).
-    Chained space: one route per table and ordmin (SSIcov.mpe+cov iff idx + ordmin is even, else pLSCF.mpe)."""
+    """Class routes with a non-default ordmin executed on table idx (in addition to routes_for), k = idx + ordmin:
+    EI: every ordmin x {SSIcov.mpe (with covariance tables iff k is even), pLSCF.mpe};
+    FM: every ordmin x SSIcov.mpe (with covariance tables iff k is even; pLSCF.mpe's find_min is the known-finding route);
+    EL: every ordmin x one route, k mod 4 = 0: SSIcov.mpe+cov, 2: SSIcov.mpe, odd: pLSCF.mpe;
+    CH: ordmin 1 x one route (SSIcov.mpe+cov iff k is even, else pLSCF.mpe)."""
     if sp[0] == "FM" and not sp[2]:
         return ()
     out = []
     for om in ordmins(sp):
-        even = (idx + om) % 2 == 0
+        k = idx + om
         if sp[0] == "CH":
-            out.append(("SSIcov.mpe+cov" if even else "pLSCF.mpe") + f"{OM_TAG}{om}")
-            continue
-        out.append(("SSIcov.mpe+cov" if even else "SSIcov.mpe") + f"{OM_TAG}{om}")
-        if sp[0] != "FM":
-            out.append(f"pLSCF.mpe{OM_TAG}{om}")
+            r = ["SSIcov.mpe+cov" if k % 2 == 0 else "pLSCF.mpe"]
+        elif sp[0] == "EL":
+            r = [("SSIcov.mpe+cov", "pLSCF.mpe", "SSIcov.mpe", "pLSCF.mpe")[k % 4]]
+        else:
+            r = ["SSIcov.mpe+cov" if k % 2 == 0 else "SSIcov.mpe"] + (["pLSCF.mpe"] if sp[0] != "FM" else [])
+        out += [f"{x}{OM_TAG}{om}" for x in r]
     return tuple(out)
 
 
-def ordmin_rtol(idx, om):
-    """Tolerance index used on table idx by the routes with ordmin = om > 0 (spaces EI, EL, FM)."""
-    return ((idx + om) >> 1) & 1
+def ordmin_rtol(sp, idx, om):
+    """Tolerance index used on table idx by the routes with ordmin = om > 0 (spaces EI, EL, FM): the bit of idx + ordmin above
+    the bits that choose the route, so that every (route, tolerance) pair occurs within 4 (EL: 8) consecutive tables."""
+    return ((idx + om) >> (2 if sp[0] == "EL" else 1)) & 1
 
 
 def with_ordmin(T, om):
@@ -601,7 +607,7 @@ def one_call(t, sp, idx, seed, route, q, order, ri, Tcache, count=True, holder=N
     holder / before: the objects kept from, and the operations [(q, order, ri)] already executed in, the same chain (before=[]
     for the first extraction of a chain; None outside the chained space: fresh objects)."""
     family = "plscf" if route.startswith("pLSCF") else "ssi"
-    base, cov, om, route_cov = parse_route(route)
+    base, cov, om, _ = parse_route(route)
     T, listing, Tb = table_for(Tcache, sp, idx, seed, family, om)
     freqs = REQS[q]
     rtol = RTOLS[ri]
@@ -770,7 +776,7 @@ def work(item):
                     nt = one_chain(t, sp, idx, seed, route, chain_ops(idx, j, ch), cache) or nt
                 continue
             for q, order, ri in g:
-                if ri == ordmin_rtol(idx, om):
+                if ri == ordmin_rtol(sp, idx, om):
                     nt = one_call(t, sp, idx, seed, route, q, order, ri, cache) or nt
         if nt:
             t.nontrivial.add(code * 10**7 + idx)
@@ -817,12 +823,20 @@ def explore(ctx):
               "routes": list(ROUTES), "shape_components": NCH, "spaces": [],
               "judged_on_every_call": "returned record against the reference extractor; every table handed in (and, class routes, "
                                       "stored in the result object), the request list and the order list byte-identical after the call",
-              "chain_operations": [[list(REQS[q]), o] for q, o in CH_OPS]}
+              "chain_operations": [[list(REQS[q]), o] for q, o in CH_OPS],
+              "ordmin_of_the_algorithm_object": {
+                  "values": "0 (all class routes, as before) and 1 .. last column (2 for the 3-column spaces, 1 for the chained space)",
+                  "routes": "k = table index + ordmin; EI: SSIcov.mpe (+cov iff k even) and pLSCF.mpe; FM: SSIcov.mpe (+cov iff k "
+                            "even); EL: k mod 4 -> SSIcov.mpe+cov, pLSCF.mpe, SSIcov.mpe, pLSCF.mpe; CH: SSIcov.mpe+cov iff k even, "
+                            "else pLSCF.mpe",
+                  "grid": "every request and order of the space; tolerance index (k >> 1) & 1 (EL: (k >> 2) & 1); CH: every chain",
+                  "labels": "label table handed in = designed table with the columns below ordmin set to 0"}}
     per_space = []
     for sp, step in plan(ctx.tier):
         n = space_size(sp)
         code = space_code(sp)
-        bounds["spaces"].append({"space": describe(sp), "tables": n, "grid_elements": len(grid(sp)), "routes": len(routes_for(sp))})
+        bounds["spaces"].append({"space": describe(sp), "tables": n, "grid_elements": len(grid(sp)), "routes": len(routes_for(sp)),
+                                 "ordmin_values_on_class_routes": [0] + (ordmins(sp) if ordmin_routes(sp, 0) else [])})
         per_space.append([(sp, code, lo, min(n, lo + step), ctx.seed) for lo in range(0, n, step)])
     # spaces interleaved (round robin), so that violation classes of every kind of order are merged early
     for k in range(max(len(x) for x in per_space)):
@@ -851,6 +865,28 @@ def explore(ctx):
             req += [f"{r}:chain:{k1}->find_min:nothing-qualifies-nothing-returned", f"{r}:chain:{k1}->find_min:qualifying-column-exists"]
     for r in CH_ROUTES[:2]:
         req += [f"{r}:chain:{k1}->find_min:found@column{c}" for k1 in kinds for c in range(2)]
+    # axis ordmin: every kind of order was judged as on the default objects, on every class route, for every ordmin; explicit
+    # orders below, at and above ordmin returned their pole; find_min found every column that can qualify
+    last = 2
+    for om in (1, 2):
+        for r in ("SSIcov.mpe", "SSIcov.mpe+cov", "pLSCF.mpe"):
+            ro = f"{r}{OM_TAG}{om}"
+            rels = ["below", "at"] + (["above"] if om < last else [])
+            for k in ("explicit-int", "explicit-list"):
+                req += [f"{ro}:{k}:{x}" for x in ("all-found", "some-found", "none-found", "inputs-unchanged")]
+                req += [f"{ro}:{k}:pole-returned-from-order-{x}-ordmin" for x in rels]
+                req += [f"{ro}:{k}:nothing-returned-at-order-{x}-ordmin" for x in rels]
+            if r != "pLSCF.mpe":
+                req += [f"{ro}:find_min:found@column{c}" for c in range(om, last + 1)]
+                req += [f"{ro}:find_min:nothing-qualifies-nothing-returned", f"{ro}:find_min:inputs-unchanged"]
+    for r in ("SSIcov.mpe+cov", "pLSCF.mpe"):
+        ro = f"{r}{OM_TAG}1"
+        for k1 in kinds:
+            req += [f"{ro}:chain:{k1}->{k2}:inputs-unchanged" for k2 in kinds]
+            req += [f"{ro}:chain:{k1}->{k2}:all-found" for k2 in kinds[1:]]
+            req += [f"{ro}:chain:{k1}->{k2}:pole-returned-from-order-{x}-ordmin" for k2 in kinds[1:] for x in ("below", "at")]
+            req += [f"{ro}:chain:{k1}->find_min:nothing-qualifies-nothing-returned"]
+    req += [f"SSIcov.mpe+cov{OM_TAG}1:chain:{k1}->find_min:found@column1" for k1 in kinds]
     ctx.require(*req)
 
 
